@@ -576,4 +576,5 @@ func c07Spaces(c *fw.Ctx) {
 	c07LengthSpace(c)
 	c07DirectiveSpace(c)
 	c07ReadFaultSpace(c)
+	c07ErrorPositionSpace(c)
 }
